@@ -165,6 +165,17 @@ func detachValue(rv reflect.Value) reflect.Value {
 		reflect.Uint, reflect.Uint8, reflect.Uint16, reflect.Uint32, reflect.Uint64, reflect.Uintptr,
 		reflect.Float32, reflect.Float64, reflect.Complex64, reflect.Complex128,
 		reflect.Slice, reflect.Map, reflect.Ptr, reflect.Chan, reflect.Func:
+		if rv.CanInterface() {
+			// a copy that is not addressable, like a value that never was in a typed
+			// slot; the dynamic (named) type is kept
+			return reflect.ValueOf(rv.Interface())
+		}
+		value := reflect.New(rv.Type()).Elem()
+		value.Set(rv)
+		return value
+	case reflect.Struct, reflect.Array:
+		// a copy in a cell of its own: fields and elements stay assignable through the
+		// name, but the name no longer is the slot it was read from
 		value := reflect.New(rv.Type()).Elem()
 		value.Set(rv)
 		return value
